@@ -1287,6 +1287,9 @@ class DenseSquareMatrix(InvertibleMatrix, ExplicitArrayMatrix):
                 transpose.
         """
         super().__init__(array.shape, _array=array)
+        if lu_and_piv is not None:
+            for factor_array in lu_and_piv:
+                factor_array.flags.writeable = False
         self._lu_and_piv = lu_and_piv
         self._lu_transposed = lu_transposed
 
@@ -1350,8 +1353,9 @@ class InverseLUFactoredSquareMatrix(InvertibleMatrix, ImplicitArrayMatrix):
             inv_lu_transposed: Whether LU factorisation is of inverse of array or
                 transpose of inverse of array.
         """
-        super().__init__(inv_array.shape)
-        self._inv_array = inv_array
+        super().__init__(inv_array.shape, _inv_array=inv_array)
+        for factor_array in inv_lu_and_piv:
+            factor_array.flags.writeable = False
         self._inv_lu_and_piv = inv_lu_and_piv
         self._inv_lu_transposed = inv_lu_transposed
 
@@ -1431,6 +1435,8 @@ class DenseSymmetricMatrix(SymmetricMatrix, InvertibleMatrix, ExplicitArrayMatri
         super().__init__(array.shape, _array=array)
         if isinstance(eigvec, np.ndarray):
             eigvec = OrthogonalMatrix(eigvec)
+        if isinstance(eigval, np.ndarray):
+            eigval.flags.writeable = False
         self._eigvec = eigvec
         self._eigval = eigval
 
